@@ -558,6 +558,31 @@ def option_loop_discipline(P, rep, tu, rule):
 
 
 # ------------------------------------------------------------------------------------------------
+def _guarded_by_helper(P, F, use, btxt):
+    """some condition that controls `use` (an enclosing if / conjunct, or a guard clause before it) hands the container to a function of the
+    program: the size test may live there"""
+    conds = []
+    for a in F.ancestors(use):
+        if a.get("k") == "IfStmt":
+            conds.append(a["c"][0])
+        if a.get("k") == "BinaryOperator" and a.get("op") in ("&&", "||"):
+            conds.append(a["c"][0])
+        if a.get("k") == "CompoundStmt":
+            for s in a["c"]:
+                if s is None:
+                    continue
+                if any(y is use for y in F.walk(s)):
+                    break
+                if s.get("k") == "IfStmt":
+                    conds.append(s["c"][0])
+    for c in conds:
+        for y in F.walk(c):
+            if y.get("k") == "CallExpr" and y.get("callee") in P.funcs and P.funcs[y["callee"]].body is not None \
+                    and not P.funcs[y["callee"]].qn.startswith("std::") and any(norm.render(P, z) == btxt for z in y["c"][1:]):
+                return True
+    return False
+
+
 def index_guards(P, rep, tu, rule="G3.index"):
     """every literal subscript on a vector<string> line is dominated by a size test implying the index is in range"""
     rep.rule(rule, "every `line[k]` on a tokenised input line is evaluated only after a test implying k < line.size() "
@@ -586,6 +611,9 @@ def index_guards(P, rep, tu, rule="G3.index"):
         btxt = norm.render(P, base)
         if have >= need:
             rep.ok(rule, "%s[%d] (size >= %d known)" % (btxt, k["v"], have), F.nloc(x), F.qn)
+        elif _guarded_by_helper(P, F, x, btxt):
+            rep.unknown(rule, "%s[%d]: the line is tested by a helper function before it is indexed; this rule reads size tests written in %s only" % (
+                btxt, k["v"], F.name))
         else:
             rep.violation(rule, "%s[%d] is read with only size >= %d established" % (btxt, k["v"], have), F.nloc(x), F.qn, norm.render(P, x),
                           "a shorter line is indexed out of bounds", key="%s|%s|%s[%d]" % (rule, tu, btxt, k["v"]),
@@ -622,6 +650,38 @@ def guaranteed_size(P, F, use, base, dimkey):
                     m = {"==": v, ">=": v, ">": v + 1}.get(op)
                     if m is not None:
                         best = max(best, m)
+    def neg_facts_of(c):
+        """facts that hold when the condition c is false"""
+        nonlocal best
+        c = sc(c)
+        if c is None:
+            return
+        if c.get("k") == "BinaryOperator" and c.get("op") == "||":
+            neg_facts_of(c["c"][0])
+            neg_facts_of(c["c"][1])
+            return
+        if c.get("k") == "UnaryOperator" and c.get("op") == "!":
+            facts_of(c["c"][0])
+            return
+        mc = astq.member_call(P, c, "empty")
+        if mc and norm.render(P, mc[0]) == btxt:
+            best = max(best, 1)
+            return
+        if c.get("k") == "BinaryOperator":
+            a, b = sc(c["c"][0]), sc(c["c"][1])
+            ma = astq.member_call(P, a, "size")
+            if ma and norm.render(P, ma[0]) == btxt:
+                v = const_value(P, F, b, use, dimkey)
+                if v is not None:
+                    m = {"<": v, "<=": v + 1, "!=": v, "==": (1 if v == 0 else None)}.get(c["op"])
+                    if m is not None:
+                        best = max(best, m)
+
+    def leaves(stmt):
+        """the statement only leaves: continue / break / return / throw"""
+        st = [x for x in (stmt["c"] if stmt.get("k") == "CompoundStmt" else [stmt]) if x is not None]
+        return bool(st) and st[-1].get("k") in ("ContinueStmt", "BreakStmt", "ReturnStmt", "CXXThrowExpr", "ExprWithCleanups") and (
+            st[-1].get("k") != "ExprWithCleanups" or any(y.get("k") == "CXXThrowExpr" for y in F.walk(st[-1])))
     # short-circuit conjuncts to the left, enclosing ifs (then-branch), preceding release-active assertions in the same block
     node = use
     for a in F.ancestors(use):
@@ -629,6 +689,17 @@ def guaranteed_size(P, F, use, base, dimkey):
             # use is inside the right operand?
             if any(y is node for y in F.walk(a["c"][1])):
                 facts_of(a["c"][0])
+        if a.get("k") == "BinaryOperator" and a.get("op") == "||":
+            if any(y is node for y in F.walk(a["c"][1])):
+                neg_facts_of(a["c"][0])
+        if a.get("k") == "CompoundStmt":
+            for s in a["c"]:
+                if s is None:
+                    continue
+                if any(y is use for y in F.walk(s)):
+                    break
+                if s.get("k") == "IfStmt" and not s.get("m") and (len(s["c"]) < 3 or s["c"][2] is None) and leaves(s["c"][1]):
+                    neg_facts_of(s["c"][0])     # a guard clause: past it the condition is false
         if a.get("k") == "IfStmt" and any(y is use for y in F.walk(a["c"][1])):
             facts_of(a["c"][0])
         if a.get("k") == "CompoundStmt":
